@@ -173,3 +173,91 @@ class DecimalYear:
 
     def result(c, test_date):
         return DY(to_z3(test_date.us))
+
+
+# ---------------------------------------------------------------------------------------------------
+# target-event rates (property C08: what the paired T- and W-tests read off the forecasts)
+# ---------------------------------------------------------------------------------------------------
+from contracts.regions import Lattice
+from contracts.calc import grid, Bin1d_f64
+from contracts.catalogs import mk_catalog, last_call, GET_INDEX_OF, BIN1D
+
+
+def _forecast_on_lattice(c, **extra):
+    """a GriddedForecast built by the real constructors on a lattice region (RI) with equally spaced magnitude edges"""
+    L = Lattice(c)
+    mags = grid(c, 'magnitudes', 'float64')
+    region = L.obj(c, magnitudes=mags)
+    region.abstract = False
+    n1 = to_z3(mags.shape[0])
+    D0 = c.arr2('D0', 'float64', (L.N, n1))
+    klass = c.I.repo.locate_class(GF, c.I)
+    o = c.I.instantiate(klass, [], dict(data=D0, region=region, magnitudes=mags, name='fc', **extra))
+    s = c.real('s0')
+    o.fields['_scale'] = s
+    o.written = set()
+    return o, L, mags, D0, s
+
+
+def target_rates_case(scale):
+    class TER:
+        qualname = GF + '.target_event_rates'
+        case = 'lattice region (RI), equally spaced magnitude edges, scale=%s' % scale
+        properties = ('C08',)
+
+        def params(c):
+            st, en = c.int('start_us'), c.int('end_us')
+            o, L, mags, D0, s = _forecast_on_lattice(c, start_time=mk_dt(st, None), end_time=mk_dt(en, None))
+            cat, data = mk_catalog(c, region=None)
+            return dict(self=o, target_catalog=cat, scale=scale, _v=dict(L=L, mags=mags, D0=D0, s=s, data=data, st=st, en=en))
+
+        def requires(c, self, target_catalog, scale, _v):
+            L, mags, data = _v['L'], _v['mags'], _v['data']
+            days = (_v['en'] - _v['st']) / (86400 * 1000000)
+            return (L.RI() + L.grid_requires(c, data.fields['longitude'])
+                    + Bin1d_f64.requires(c, data.fields['magnitude'], mags, None, True) + [to_real(mags.grid[1]) >= 0]
+                    + ([_v['en'] - _v['st'] >= 86400 * 1000000] if scale else []))
+
+        def raises(c, exc, self, target_catalog, scale, _v):
+            # the lookups may reject events outside the region / below the first magnitude edge: their contracts say when
+            if exc.name == 'ValueError':
+                return []
+            return None
+
+        def ensures(c, r, self, target_catalog, scale, _v):
+            L, mags, D0, s, data = _v['L'], _v['mags'], _v['D0'], _v['s'], _v['data']
+            n = data.n
+            yield 'returns (rates, total)', z3.BoolVal(isinstance(r, tuple) and len(r) == 2 and isinstance(r[0], Arr))
+            rates, tot = r
+            gio = last_call(c, GET_INDEX_OF)
+            bins = [x for x in c.calls(BIN1D)]
+            yield 'cell index from the region lookup, magnitude index from the magnitude edges', z3.BoolVal(gio is not None and len(bins) >= 1)
+            if gio is None or not bins:
+                return
+            idx, idm = gio[2], bins[-1][2]
+            e = c.ctx.fresh_int('e!sk')
+            if scale:
+                days = c.ctx.fresh_int('days')
+                us = _v['en'] - _v['st']
+                c.ctx.assume(z3.And(days * 86400 * 1000000 <= us, us < (days + 1) * 86400 * 1000000))
+                f = s / z3.ToReal(days)
+            else:
+                f = s
+            yield 'one rate per target event', to_z3(rates.shape[0]) == n
+            yield 'rate of event e == (scaled) forecast rate of its space-magnitude bin', z3.Implies(
+                z3.And(0 <= e, e < n),
+                to_real(rates.f((e,))) == to_real(D0.f((to_z3(idx.f((e,))), to_z3(idm.f((e,)))))) * f)
+            lo, la, mg = gio[1]['lons'], gio[1]['lats'], bins[-1][1]['p']
+            yield 'the region lookup is asked for the event epicentres, the magnitude lookup for the event magnitudes', z3.Implies(
+                z3.And(0 <= e, e < n), z3.And(to_real(lo.f((e,))) == to_real(data.fields['longitude'].f((e,))),
+                                              to_real(la.f((e,))) == to_real(data.fields['latitude'].f((e,))),
+                                              to_real(mg.f((e,))) == to_real(data.fields['magnitude'].f((e,)))))
+            yield 'total == sum of all (scaled) rates', to_real(tot) == rsum(lambda t: to_real(_flat(D0, t)) * f, _size(D0))
+            yield 'the forecast itself is not modified', z3.BoolVal(not self.written)
+    TER.__name__ = 'TargetEventRates_%s' % scale
+    return TER
+
+
+from pyvc.contracts import REG as _REG2
+for _sc in (False, True):
+    _REG2.add(target_rates_case(_sc))
